@@ -208,6 +208,8 @@ def _run_oracle(oracle, function):
     log = p.stdout + '\n' + p.stderr[-3000:]
     shutil.rmtree(root, ignore_errors=True)
     mm = re.findall(r'COUNTEREXAMPLE (.*)', log)
+    # a panic inside the real function on an input satisfying the precondition is a failing input too
+    mm += ['panic: ' + re.sub(r'\s+', ' ', x) for x in re.findall(r'panicked at src/[^\n]*\n[^\n]*', log)]
     return (len(mm) > 0), log, (mm[:5] if mm else None)
 
 
